@@ -1,6 +1,6 @@
 // C03 — every coarse level is the (re-scaled) Galerkin product; rebuild keeps it so.
-// Implementation shared by the two TUs (c03_galerkin_a.cpp: aggregation + smoothed_aggregation,
-// c03_galerkin_b.cpp: smoothed_aggr_emin + ruge_stuben); each TU instantiates 2 coarsenings x 4 relaxations.
+// Implementation shared by four TUs (c03_galerkin_{aggr,sa,emin,rs}.cpp), one coarsening each x 4 relaxations
+// (recording hierarchy + replaying model = 8 amg instantiations per TU).
 #pragma once
 #include <amgcl/coarsening/aggregation.hpp>
 #include <amgcl/coarsening/smoothed_aggregation.hpp>
@@ -227,14 +227,14 @@ void run_history(Tape &t, Ctx &c) {
         prm.npre = static_cast<unsigned>(t.u(1, 3)) % 3;   // 1,2,0
         prm.npost = static_cast<unsigned>(t.u(1, 3)) % 3;
         prm.ncycle = static_cast<unsigned>(t.u(1, 2));
-        prm.pre_cycles = static_cast<unsigned>(t.u(1, 3)) % 3;
+        { int w = static_cast<int>(t.u(0, 9)); prm.pre_cycles = w == 9 ? 0u : (w == 1 || w == 2) ? 2u : 1u; } // pre_cycles=0 makes apply a plain copy: rare
         prm.allow_rebuild = !t.chance(1, 10);
     }
     // ---- history
     int hlen = static_cast<int>(t.u(0, 8));
     c.desc << "history " << ci.name << " x " << RelaxName<Rlx>::name() << " " << info.family << "/" << info.graph << " n=" << n << (ex.shuffle ? " (unsorted input rows)" : "") << pd.str()
            << " coarse_enough=" << prm.coarse_enough << " max_levels=" << prm.max_levels << " direct_coarse=" << prm.direct_coarse << " npre=" << prm.npre << " npost=" << prm.npost
-           << " ncycle=" << prm.ncycle << " pre_cycles=" << prm.pre_cycles << " allow_rebuild=" << prm.allow_rebuild << " threads=" << c.threads << " ops=" << hlen << " K=" << dump_small(K0, 8) << " |";
+           << " ncycle=" << prm.ncycle << " pre_cycles=" << prm.pre_cycles << " allow_rebuild=" << prm.allow_rebuild << " threads=" << c.threads << " ops=" << hlen << " K=" << dump_small(K0, 12) << " |";
     c.label("coarsening:" + ci.name); c.label(std::string("relax:") + RelaxName<Rlx>::name()); c.label("fam:" + info.family);
     c.label(n <= 12 ? "n<=12" : n <= 60 ? "n<=60" : "n>60");
     if (kn.b > 1) c.label("block_size=2"); if (kn.k) c.label("nullspace=" + std::to_string(kn.k)); if (ex.shuffle) c.label("unsorted-input");
@@ -419,27 +419,34 @@ void run_history(Tape &t, Ctx &c) {
         if (kind == 3) for (auto &io : orig_io) VF_REQUIRE(same_bits(amg_apply(*amg, io.first), io.second), when << ": rebuild(original) did not restore the original action");
         else if (same_bits(x, orig_io[0].second)) c.label("changed-matrix-same-action"); // not asserted; label only
     }
-    c.nontrivial = L >= 2 && changed_then_applied;
+    c.nontrivial = L >= 2 && changed_then_applied && prm.pre_cycles >= 1;
     if (rebuilds) c.label("rebuilds>=1"); if (rebuilds >= 3) c.label("rebuilds>=3"); if (applies) c.label("applies>=1");
-    if (L >= 2 && changed_then_applied) c.label("nt:changed-rebuild-then-apply");
+    if (c.nontrivial) c.label("nt:changed-rebuild-then-apply");
+    if (prm.pre_cycles == 0) c.label("pre_cycles=0");
     if (worst > 0.05) c.label("galerkin-err>0.05tol");
     if (worst > 0.5) c.label("galerkin-err>0.5tol");
 }
 
-// decode coarsening (one of two in this TU) and relaxation, dispatch
-template <template <class> class C0, template <class> class C1>
+// one coarsening per TU (compile time); the relaxation is decoded from the tape
+template <template <class> class C0>
 void prop_history(Tape &t, Ctx &c) {
-    int cz = static_cast<int>(t.u(0, 1)), rl = static_cast<int>(t.u(0, 3));
-    switch (cz * 4 + rl) {
+    switch (t.u(0, 3)) {
     case 0: run_history<C0, rx::spai0>(t, c); break;
     case 1: run_history<C0, rx::damped_jacobi>(t, c); break;
     case 2: run_history<C0, rx::gauss_seidel>(t, c); break;
-    case 3: run_history<C0, rx::ilu0>(t, c); break;
-    case 4: run_history<C1, rx::spai0>(t, c); break;
-    case 5: run_history<C1, rx::damped_jacobi>(t, c); break;
-    case 6: run_history<C1, rx::gauss_seidel>(t, c); break;
-    default: run_history<C1, rx::ilu0>(t, c); break;
+    default: run_history<C0, rx::ilu0>(t, c); break;
     }
 }
 
 } // namespace c03
+
+#define C03_TU(COARSENING)                                                                                                  \
+    static std::vector<vf::Prop> props() {                                                                                  \
+        /* 1 thread: spgemm_saad; 17 threads: product() switches to spgemm_rmerge */                                        \
+        return {                                                                                                            \
+            vf::Prop("history", c03::prop_history<amgcl::coarsening::COARSENING>, 1500, 20000, 100, 60, {1}, 1, 4),        \
+            vf::Prop("history_t17", c03::prop_history<amgcl::coarsening::COARSENING>, 150, 2500, 100, 60, {17}, 1, 2),     \
+        };                                                                                                                  \
+    }                                                                                                                       \
+    static std::vector<vf::Enum> enums() { return {}; }                                                                     \
+    VF_MAIN(props(), enums())
